@@ -431,14 +431,8 @@ def worker(args) -> Dict[str, Any]:
     chk.t0 = t0  # budgets count from the start of the parent, warm-up included
     budget = chk.wall_budget(150, 780)
     mine = {name: xschema.share(chk.pick(*pair), n_shards) for name, pair in MINIMA.items()}
-    pattern_pace = xschema.Pace(
-        chk, budget * 0.4, budget * 1.5,
-        {"pattern_non_member_documents_validated": mine["pattern_non_member_documents_validated"]},
-    )
-    model_pace = xschema.Pace(
-        chk, budget, budget * 3.0,
-        {k: v for k, v in mine.items() if k != "pattern_non_member_documents_validated"},
-    )
+    # one pace for everything (see C13): patterns and models alternate
+    pace = xschema.Pace(chk, budget, budget * 3.0, mine)
     try:
         lab = xschema.PatternLab()
         writer = SdkWriter()
@@ -446,36 +440,43 @@ def worker(args) -> Dict[str, Any]:
             patterns = c13.pattern_workload(chk, n_patterns)
             shrinks_left = [chk.pick(5, 15)]
             my_patterns = patterns[shard::n_shards]
-            for idx, (source, pattern) in enumerate(my_patterns):
-                if pattern_pace.over():
-                    chk.count("patterns_skipped_for_budget", len(my_patterns) - idx)
+            extra = c13.targeted_models() + corpus.small_common()
+            extra = [e for k, e in enumerate(extra) if k % n_shards == shard]
+            mmg: List[Tuple[str, str]] = []
+            for i in range(shard, n_models, n_shards):
+                m = xschema.generate_schema_model(chk.rng("model", i), c13.mmg_profile(i))
+                mmg.append((f"mmg/{chk.seed}/{i}", m.text))
+                for k, v in m.features.items():
+                    chk.hist("mmg_features", k, v)
+            models: List[Tuple[str, str]] = []
+            while mmg or extra:
+                if extra:
+                    models.append(extra.pop(0))
+                if mmg:
+                    models.append(mmg.pop(0))
+                if mmg:
+                    models.append(mmg.pop(0))
+            per_model = max(1, round(len(my_patterns) / max(1, len(models))))
+            pi = mi = 0
+            while pi < len(my_patterns) or mi < len(models):
+                if pace.over():
+                    chk.count("patterns_skipped_for_budget", len(my_patterns) - pi)
+                    chk.count("models_skipped_for_budget", len(models) - mi)
                     break
-                check_pattern(chk, lab, writer, source, pattern,
-                              chk.rng("strings", source, pattern), n_strings, shrinks_left)
+                if mi < len(models):
+                    name, text = models[mi]
+                    mi += 1
+                    check_model(chk, name, text, chk.rng("inst", name), n_instances,
+                                max_sites=chk.pick(8, 16), pace=pace)
+                for _ in range(per_model if mi < len(models) else len(my_patterns)):
+                    if pi >= len(my_patterns) or pace.over():
+                        break
+                    source, pattern = my_patterns[pi]
+                    pi += 1
+                    check_pattern(chk, lab, writer, source, pattern,
+                                  chk.rng("strings", source, pattern), n_strings, shrinks_left)
         finally:
             writer.close()
-        extra = c13.targeted_models() + corpus.small_common()
-        extra = [e for k, e in enumerate(extra) if k % n_shards == shard]
-        mmg: List[Tuple[str, str]] = []
-        for i in range(shard, n_models, n_shards):
-            m = xschema.generate_schema_model(chk.rng("model", i), c13.mmg_profile(i))
-            mmg.append((f"mmg/{chk.seed}/{i}", m.text))
-            for k, v in m.features.items():
-                chk.hist("mmg_features", k, v)
-        models: List[Tuple[str, str]] = []
-        while mmg or extra:
-            if extra:
-                models.append(extra.pop(0))
-            if mmg:
-                models.append(mmg.pop(0))
-            if mmg:
-                models.append(mmg.pop(0))
-        for idx, (name, text) in enumerate(models):
-            if model_pace.over():
-                chk.count("models_skipped_for_budget", len(models) - idx)
-                break
-            check_model(chk, name, text, chk.rng("inst", name), n_instances,
-                        max_sites=chk.pick(8, 16), pace=model_pace)
     except Exception:  # noqa
         chk.harness_error("worker failed: " + traceback.format_exc()[-1500:])
     return chk.export()
